@@ -1764,7 +1764,8 @@ class LeCreditBasedChannel(utils.EventEmitter):
             self.connection_result.cancel()
             self.connection_result = None
         if self.disconnection_result is not None:
-            self.disconnection_result.set_result(None)
+            if not self.disconnection_result.done():
+                self.disconnection_result.set_result(None)
             self.disconnection_result = None
 
     def on_pdu(self, pdu: bytes) -> None:
